@@ -7,7 +7,7 @@ use libfuzzer_sys::fuzz_target;
 
 fn engines() -> Vec<Box<dyn Engine>> {
     let mut v: Vec<Box<dyn Engine>> = Vec::new();
-    for p in ["C01", "C02", "C03", "C05", "C10", "C12", "C13", "C14", "C18"] {
+    for p in ["C01", "C02", "C03", "C05", "C07", "C10", "C12", "C13", "C14", "C18"] {
         v.push(Box::new(bsv_arena::arena_cells::ArenaEngine::new(p)));
     }
     for p in ["C06", "C08", "C15", "C16"] {
